@@ -42,11 +42,18 @@ def plan(tier):
     p.append((S.T2("net1 net2", shared=S.VM1_CHAIN[:2], O=("PASS", "NORESULT"), D=(1.0,)).variant("/O=PASS+NORESULT"), 1, 0.5))
     # lazily parsed graph with clones
     p.append((S.G2(), 0 if q else 1, 3))
+    # COMPLETE enumeration (no deviation bound): every duration / outcome / tie-order sequence of small graphs
+    p.append((S.T1(shared=S.VM1_CHAIN[:2]).variant("/shared=install+customize,ALL-SCHEDULES"), 99, 0.5))
+    p.append((S.T1("net1 net2 net3", shared=S.VM1_CHAIN[:2]).variant("/shared=install+customize,ALL-SCHEDULES"), 99, 0.5))
+    p.append((S.T1(shared=S.VM1_CHAIN[:1]).variant("/shared=install,ALL-SCHEDULES"), 99, 1))
+    p.append((S.T2(shared=S.VM1_CHAIN[:2]).variant("/shared=install+customize,ALL-SCHEDULES"), 99, 1))
+    if not q:
+        p.append((S.T2(shared=S.VM1_CHAIN[:1]).variant("/shared=install,ALL-SCHEDULES"), 99, 4))
     return p
 
 
 def run(tier, seed):
-    return checkbase.run_e1("C03", tier, seed, TECH, (lambda: plan(tier)), monitors.c03, 150, 1500,
+    return checkbase.run_e1("C03", tier, seed, TECH, (lambda: plan(tier)), monitors.c03, 420, 2400,
                             "executions = complete runs of the real traversal, one per choice sequence (test durations from D, outcomes from O, "
                             "tie order of simultaneous events) with at most k non-default choices; distinct = distinct (scenario, sequence of "
                             "(worker, test, status)) signatures; states = distinct event histories at choice points",
